@@ -126,3 +126,20 @@ def _st(V):
 
 
 SELFTESTS = [_st]
+
+
+def _design_mutants(V):
+    """Design-level non-vacuity: an implementation-shaped model with a named defect must FAIL its refinement check."""
+    rc = 0
+    for module, cfg, inv, what in [
+        ("MC_TimeOfDay", "MC_TimeOfDay_mutant.cfg", "ImplRefines", "leap guard frac >= 10^9 weakened to > (seeded change C07-m1)"),
+        ("MC_Duration", "MC_Duration_prefix.cfg", "ImplRefines", "checked_mul before fix fce739b (result compared with the i64 limits only)"),
+    ]:
+        r = V.run_tlc(module, cfg, workers=4, timeout=600)
+        ok = ("Invariant %s is violated" % inv) in r["out"]
+        V.log("SELFTEST design mutant %-28s %s: %s" % (cfg, "ok - counterexample found" if ok else "FAIL - not detected", what))
+        rc |= 0 if ok else 1
+    return rc
+
+
+SELFTESTS.append(_design_mutants)
